@@ -24,7 +24,8 @@ NEEDS_RUST = True
 WORKERS = 14
 CASE_TIMEOUT = 420
 QUIESCENCE_AFTER = 60.0
-REQUIRED_OBS = ["passes", "gated_passes", "sequence_comparisons", "reversed_completion_orders",
+REQUIRED_OBS = ["passes", "gated_passes", "sequence_comparisons", "reversed_completion_orders", "selection_passes",
+                "shuffled_passes_before_ordered_ones",
                 "multi_writer_sessions"]
 RULE = ("single- and multi-session histories with interleaved splits and multi-writer calls x interface x "
         "file_parallelism in {1..S+2} x repeated passes / reopen x forced completion orders (reverse, random, "
@@ -48,6 +49,18 @@ def gen_cases(tier: str, seed: int) -> list[dict]:
         cases.append({"hist": {"fmt": fmt, "comp": "", "eps": 2, "sessions": [
             {"kind": "multi", "writers": writers, "single_process": True}]},
             "pseed": rng.randrange(1 << 30), "passes": 4})
+    # shard selection options must not disturb the order: metadata kinds interleave within one session
+    for k in range(12 if tier == "quick" else 120):
+        fmt = ["fb", "npz", "tfrec"][k % 3]
+        kinds = rng.randint(2, 3)
+        writes, current = [], 0
+        for _ in range(rng.randint(8, 18)):
+            if rng.random() < 0.6:
+                current = rng.randrange(kinds)
+            writes.append({"split": "train", "meta": {"lit": {"kind": current}}})
+        cases.append({"kind": "selection", "pseed": rng.randrange(1 << 30),
+                      "hist": {"fmt": fmt, "comp": "", "eps": rng.choice([1, 2, 3]),
+                               "sessions": [{"kind": "root", "reopen": False, "writes": writes}]}})
     n_real = 6 if tier == "quick" else 60
     for k in range(n_real):
         cases.append({"kind": "real-multi", "fmt": ["fb", "npz", "tfrec"][k % 3], "pseed": rng.randrange(1 << 30),
@@ -80,6 +93,8 @@ def order_problems(ids: list[int], model) -> list[str]:
 def run_case(case: dict) -> dict:
     if case.get("kind") == "real-multi":
         return run_real_multi(case)
+    if case.get("kind") == "selection":
+        return run_selection(case)
     from sedpack.io import Dataset
     hist = case["hist"]
     fmt, comp = hist["fmt"], hist["comp"]
@@ -109,6 +124,15 @@ def run_case(case: dict) -> dict:
                     perturb = {"delay": rng.randrange(1 << 30)}
                 handle = dataset if rng.random() < 0.5 else Dataset(dataset.path)
                 label = f"{iface} par={par} {perturb}"
+                if rng.random() < 0.3:
+                    # what an earlier *shuffled* pass on the same handle leaves behind must not reach this one
+                    other = rng.choice(ifaces)
+                    try:
+                        readers.read(handle, other, split, shuffle=rng.choice([2, 5, 1000]), repeat=False)
+                        obs["shuffled_passes_before_ordered_ones"] += 1
+                        label += f" after-shuffled-{other}-pass-on-{'kept' if handle is dataset else 'reopened'}-handle"
+                    except Exception as exc:  # pylint: disable=broad-exception-caught
+                        violations.append({"key": f"pass-raised/{other}", "msg": f"shuffled pass: {type(exc).__name__}: {exc}"[:300]})
                 try:
                     ids, problems, observation = _iter.run_pass(handle, fmt, iface, split, work, shuffle=0, par=par,
                                                                 process=False, perturb=perturb)
@@ -164,6 +188,67 @@ def run_case(case: dict) -> dict:
                                               f"repeating stream is not the one-pass sequence: {ids[:12]}..."})
         return {"sigs": sigs, "sig": None, "nontrivial": bool(sigs), "violations": violations, "obs": dict(obs),
                 "sample": {"fmt": fmt, "sessions": [[s["kind"], s.get("subdir")] for s in hist["sessions"]]}}
+    finally:
+        common.rm(work)
+
+
+def run_selection(case: dict) -> dict:
+    """Unshuffled passes restricted by shards / shard_filter / custom_metadata_type_limit: what is yielded must
+    still be in write order (a subsequence of the full pass) and the same on every pass and handle."""
+    from sedpack.io import Dataset
+    hist = case["hist"]
+    fmt = hist["fmt"]
+    rng = random.Random(case["pseed"])
+    work = common.new_workdir("c03s")
+    violations: list[dict] = []
+    obs: Counter = Counter()
+    sigs = []
+    try:
+        dataset, model, failed = _iter.build(work / "ds", hist)
+        if failed:
+            return {"sig": "aborted", "nontrivial": False, "obs": {},
+                    "violations": [{"key": "session-raised", "msg": failed[0].exc}]}
+        full, _ = dsmod.ids_of(readers.read(dataset, "sync", "train", shuffle=0, repeat=False))
+        position = {ident: k for k, ident in enumerate(full)}
+        n_shards = len(_iter.shard_paths(dataset, "train"))
+        present_kind = hist["sessions"][0]["writes"][-1]["meta"]["lit"]["kind"]     # selects at least one shard
+        option_sets = [("limit", {"custom_metadata_type_limit": rng.choice([1, 2, 3])}),
+                       ("shards", {"shards": rng.randint(1, max(1, n_shards))}),
+                       ("filter", {"shard_filter": lambda info: info.custom_metadata.get("kind") == present_kind}),
+                       ("limit+shards", {"custom_metadata_type_limit": 2, "shards": max(1, n_shards - 1)})]
+        for name, options in option_sets:
+            reference = None
+            for iface in readers.interfaces_for(fmt, ""):
+                if any(key not in readers.ACCEPTS[iface] for key in options):
+                    continue
+                for handle_name, handle in (("kept", dataset), ("reopened", Dataset(dataset.path))):
+                    kwargs = dict(options)
+                    if "file_parallelism" in readers.ACCEPTS[iface]:
+                        kwargs["file_parallelism"] = rng.choice([1, 2, 3])
+                    label = f"{fmt} {iface} {name}={ {k: v for k, v in options.items() if k != 'shard_filter'} } {handle_name} handle"
+                    try:
+                        ids, _ = dsmod.ids_of(readers.read(handle, iface, "train", shuffle=0, repeat=False, **kwargs))
+                    except Exception as exc:  # pylint: disable=broad-exception-caught
+                        violations.append({"key": f"pass-raised/{iface}", "msg": f"{label}: {type(exc).__name__}: {exc}"[:300]})
+                        continue
+                    obs["passes"] += 1
+                    obs["selection_passes"] += 1
+                    places = [position.get(i, -1) for i in ids]
+                    if any(b <= a for a, b in zip(places, places[1:])):
+                        violations.append({"key": f"selection-breaks-write-order/{name}/{iface}",
+                                           "msg": f"{label} ({n_shards} shards): yielded positions {places[:16]} of the full "
+                                                  f"unshuffled pass, not increasing"})
+                    if reference is None:
+                        reference = ids
+                    else:
+                        obs["sequence_comparisons"] += 1
+                        if ids != reference:
+                            violations.append({"key": f"nondeterministic-order/{iface}",
+                                               "msg": f"{label}: {ids[:8]} differs from the first pass with the same "
+                                                      f"options {reference[:8]}"})
+                    sigs.append(["selection", fmt, name, iface, handle_name])
+        return {"sigs": sigs, "sig": None, "nontrivial": bool(sigs), "violations": violations, "obs": dict(obs),
+                "sample": {"fmt": fmt, "selection": True, "shards": n_shards}}
     finally:
         common.rm(work)
 
